@@ -129,6 +129,22 @@ CHECKS = {
               "renderings must write byte-identical rulesets (apart from uuid/filename), its three passes must see the same sequence, "
               "and a marker carried by every junk line must not appear in any ruleset file. Exploration."),
         design='4/C19'),
+    'C06': dict(
+        technique="Hypothesis property-based testing of the real run_trainer(): every written list is recomputed from the harness' own tallies of the recorded segmentation (count/total, order, sum), Markov pseudo-count formula, E/W filter; determinism by repeated runs incl. another process with another hash seed",
+        text=("Generated training lists (ties in counts, single-item length classes, lists dominated by e-mail/website structures) x "
+              "coverage 0..1 x n-gram x alphabet size: each terminal, mask, base-structure, raw and PRINCE list on disk must contain "
+              "exactly the items of the recorded segmentation, once each, with probability count/total, in non-increasing order, "
+              "summing to 1; the Markov structure must carry N/coverage-N, be absent for coverage 1 and alone for coverage 0; E/W "
+              "structures only in the raw list; two runs (and a run in another process with another hash seed) must be "
+              "byte-identical apart from the UUID. Exploration."),
+        design='4/C06'),
+    'C03': dict(
+        technique="Hypothesis property-based end-to-end testing: generated training lists through the real trainer, the ruleset on disk, the real loader and a full real guesser run; membership oracle on the recorded segmentation and probability-mass check",
+        text=("Generated lists over five encodings, coverage (0,1], n-gram and alphabet sizes are trained by the real trainer; the "
+              "resulting ruleset is loaded by the real guesser (Markov skipped), the queue is drained and every pre-terminal "
+              "expanded: every training password whose segmentation has no e-mail/website segment must be emitted byte for byte and "
+              "the probabilities of all emitted guesses must sum to 1. Exploration, bounded to languages of 40000 guesses."),
+        design='4/C03'),
 }
 
 NOT_YET = "check not built yet in this round (design exists in DESIGN.md section 4); not claimed until it runs"
